@@ -7,50 +7,6 @@
 namespace vf {
 namespace {
 
-double PointTriDist2(vec3 p, vec3 a, vec3 b, vec3 c) {
-  // Ericson, Real-Time Collision Detection: closest point on triangle
-  vec3 ab = b - a, ac = c - a, ap = p - a;
-  double d1 = la::dot(ab, ap), d2 = la::dot(ac, ap);
-  vec3 q;
-  if (d1 <= 0 && d2 <= 0) q = a;
-  else {
-    vec3 bp = p - b;
-    double d3 = la::dot(ab, bp), d4 = la::dot(ac, bp);
-    if (d3 >= 0 && d4 <= d3) q = b;
-    else {
-      double vc = d1 * d4 - d3 * d2;
-      if (vc <= 0 && d1 >= 0 && d3 <= 0) q = a + ab * (d1 / (d1 - d3));
-      else {
-        vec3 cp = p - c;
-        double d5 = la::dot(ab, cp), d6 = la::dot(ac, cp);
-        if (d6 >= 0 && d5 <= d6) q = c;
-        else {
-          double vb = d5 * d2 - d1 * d6;
-          if (vb <= 0 && d2 >= 0 && d6 <= 0) q = a + ac * (d2 / (d2 - d6));
-          else {
-            double va = d3 * d6 - d5 * d4;
-            if (va <= 0 && (d4 - d3) >= 0 && (d5 - d6) >= 0) q = b + (c - b) * ((d4 - d3) / ((d4 - d3) + (d5 - d6)));
-            else {
-              double denom = 1.0 / (va + vb + vc);
-              q = a + ab * (vb * denom) + ac * (vc * denom);
-            }
-          }
-        }
-      }
-    }
-  }
-  vec3 d = p - q;
-  return la::dot(d, d);
-}
-double DistToMesh(const MeshGL64& m, vec3 p) {
-  double best = 1e300;
-  for (size_t t = 0; t < (size_t)m.NumTri(); t++) {
-    auto tv = m.GetTriVerts(t);
-    best = std::min(best, PointTriDist2(p, m.GetVertPos(tv[0]), m.GetVertPos(tv[1]), m.GetVertPos(tv[2])));
-  }
-  return std::sqrt(best);
-}
-
 Manifold Prim(const std::string& k, std::mt19937& rng) {
   std::uniform_real_distribution<double> U(0.6, 1.4);
   if (k == "cube") return Manifold::Cube({U(rng), U(rng), U(rng)}, true);
